@@ -240,9 +240,8 @@ type (
 
 func (t *TerminalParamDetails) parse(count uint8, body []byte) error {
 	index := 0
-	if len(t.OtherContent) == 0 {
-		t.OtherContent = make(map[uint32]ParamContent[[]byte])
-	}
+	*t = TerminalParamDetails{ParamParseBeforeFunc: t.ParamParseBeforeFunc}
+	t.OtherContent = make(map[uint32]ParamContent[[]byte])
 	for index < len(body) {
 		if index+5 > len(body) {
 			return protocol.ErrBodyLengthInconsistency
